@@ -251,6 +251,8 @@ def gen_twins(src, fn):
             ind = " " * n.col_offset
             txt = txt.replace("\n", "\n" + ind)
             s, e = src.span(n)
+            if src.raw[s:s + 4] == b"elif":
+                continue
             out.append(([(s, e, txt.encode())], "FLIP", f"L{n.lineno} flip arms of `if {ast.unparse(n.test)[:60]}`"))
     first = fn.body[0]
     if isinstance(first, ast.Expr) and isinstance(first.value, ast.Constant) and len(fn.body) > 1:
